@@ -84,10 +84,11 @@ def run(tier):
 
     for job, e in zip(jobs, emits):
         c.replay("mixer", e)
-        for v in ("reinit-drained", "reinit-peeked", "reinit-mid"):
+        for v in ("reinit-drained", "reinit-peeked", "reinit-mid", "tease"):
             c.replay("mixer", e, variant=v)
         if job[2]:
             c.replay("mixer", e, variant="nested")
+            c.replay("mixer", e, variant="ptr")
     c.exhaustive = True
 
     # code -> spec
